@@ -279,7 +279,7 @@ func gsR1(c *Ctx, g *gossipAnchors, rule string) {
 			n++
 			switch w.kind {
 			case "nodes-insert":
-				if fn.Name() == "newClusterState" {
+				if baseName(fn) == "newClusterState" {
 					c.ok(rule, key, w.instr.Pos(), "constructor inserts the local node")
 					continue
 				}
@@ -762,7 +762,7 @@ func pairingRule(c *Ctx, g *gossipAnchors, rule string, only map[string]bool) {
 			if only != nil && !only[w.kind] {
 				continue
 			}
-			if fn.Name() == "newClusterState" {
+			if baseName(fn) == "newClusterState" {
 				continue
 			}
 			// classify the target
@@ -1088,7 +1088,7 @@ func c11R2R3(c *Ctx, g *gossipAnchors) {
 					}
 				}
 				// R4: discovery from a digest
-				if w.kind == "nodes-insert" && fn.Name() != "newClusterState" {
+				if w.kind == "nodes-insert" && baseName(fn) != "newClusterState" {
 					if b, ok := loadedField(w.key, p.Field(gsPkg, "digestEntry", "ID")); ok {
 						facts := fs.At(w.instr.Block())
 						notLeft := anyFact(facts, func(f Fact) bool {
@@ -1149,6 +1149,27 @@ func c11R2R3(c *Ctx, g *gossipAnchors) {
 						},
 							func(a ssa.Value) bool { s, ok := constString(a); return ok && s == g.leftKey }) {
 							isLeft = true
+						}
+					}
+					if isLeft && !internal {
+						// `e.Internal` may be tested by the caller of an extracted helper
+						for _, f := range facts {
+							op, x, y, ok := f.Cmp()
+							if !ok || op != token.EQL {
+								continue
+							}
+							for _, side := range []ssa.Value{x, y} {
+								if b, ok := loadedField(side, g.eKey); ok {
+									if p.holdsUp(fn, w.instr.Block(), b, func(base ssa.Value, fx []Fact) bool {
+										return anyFact(fx, func(f2 Fact) bool {
+											bb, ok := loadedField(f2.V, g.eInternal)
+											return ok && f2.T && strip(bb) == strip(base)
+										})
+									}, 0) {
+										internal = true
+									}
+								}
+							}
 						}
 					}
 					c.check(internal && isLeft, "C11.R3", key+"/cause", w.instr.Pos(), "a remote node is marked left only on receiving its own internal leave marker",
@@ -1408,6 +1429,25 @@ func c11Transitions(c *Ctx, g *gossipAnchors) {
 				b, ok := loadedField(f.V, g.unreachF)
 				return ok && f.T == !val && strip(metaRoot(b, g)) == strip(w.root)
 			})
+			if !prev {
+				// equivalent form: `x != node.Unreachable` together with x == val (x the newly computed liveness)
+				for _, f := range facts {
+					op, x, y, ok := f.Cmp()
+					if !ok || op != token.NEQ {
+						continue
+					}
+					for _, pair := range [][2]ssa.Value{{x, y}, {y, x}} {
+						b, isU := loadedField(pair[1], g.unreachF)
+						if !isU || strip(metaRoot(b, g)) != strip(w.root) {
+							continue
+						}
+						other := pair[0]
+						if anyFact(facts, func(f2 Fact) bool { return f2.V == other && f2.T == val }) {
+							prev = true
+						}
+					}
+				}
+			}
 			c.check(prev, "C11.R7", fmt.Sprintf("%s/Unreachable=%v-on-transition", fnName(fn), val), w.instr.Pos(), "the flag is written only when it changes",
 				fmt.Sprintf("Unreachable=%v is not written exactly on the transition from %v (guard missing or inverted): either the node is never marked, or each sweep re-arms its expiry and re-notifies so it is never forgotten; facts %s", val, !val, factStrings(facts)))
 		}
@@ -1481,90 +1521,80 @@ func c02ObserverCompaction(c *Ctx, g *gossipAnchors, rule string) {
 					b, ok := loadedField(v, g.eVersion)
 					return ok && xb != nil && strip(b) == strip(xb)
 				}, func(v ssa.Value) bool {
-					ex, ok := strip(v).(*ssa.Extract)
-					if !ok || ex.Index != 0 {
-						return false
-					}
-					cl, ok := ex.Tuple.(*ssa.Call)
-					if ok && commonName(&cl.Call) == "strconv.ParseUint" {
-						cv = ex
-						return true
-					}
-					return false
+					cv = strip(v)
+					return true
 				})
 			})
 			if bad == "" && !leq {
 				bad = "entries are not dropped exactly when entry.Version <= the received compaction version"
 			}
 			if bad == "" {
-				parse := cv.(*ssa.Extract).Tuple.(*ssa.Call)
-				// the version parsed is the Value of a received entry that is internal and carries the compact key
-				eb, ok := loadedField(parse.Call.Args[0], g.eValue)
-				if !ok {
-					bad = "the compaction version is not parsed from the received entry's value"
-				} else {
-					isCompact := func(v ssa.Value) bool { s, ok := constString(v); return ok && s == g.compactKey }
-					entryFacts := func(base ssa.Value, facts []Fact) bool {
-						isE := func(v ssa.Value) bool { b, ok := loadedField(v, g.eKey); return ok && strip(b) == strip(base) }
-						keyOK := anyFact(facts, func(f Fact) bool { return cmpFact(f, token.EQL, isE, isCompact) })
-						internal := anyFact(facts, func(f Fact) bool {
-							b, ok := loadedField(f.V, g.eInternal)
-							return ok && f.T && strip(b) == strip(base)
-						})
-						return keyOK && internal
+				isCompact := func(v ssa.Value) bool { s, ok := constString(v); return ok && s == g.compactKey }
+				// provenance of the compaction version, followed through helper parameters
+				var parsedOK func(f *ssa.Function, blk *ssa.BasicBlock, v ssa.Value, depth int) string
+				parsedOK = func(f *ssa.Function, blk *ssa.BasicBlock, v ssa.Value, depth int) string {
+					v = strip(v)
+					if ex, ok := v.(*ssa.Extract); ok && ex.Index == 0 {
+						parse, ok := ex.Tuple.(*ssa.Call)
+						if !ok || commonName(&parse.Call) != "strconv.ParseUint" {
+							return "the compaction version is not the parsed value of the received entry"
+						}
+						if !anyFact(computeFacts(f).At(blk), func(ft Fact) bool {
+							return cmpFact(ft, token.EQL, func(v ssa.Value) bool {
+								e2, ok := strip(v).(*ssa.Extract)
+								return ok && e2.Index == 1 && e2.Tuple == ssa.Value(parse)
+							}, isNilConst)
+						}) {
+							return "not under a successful parse of the compaction version"
+						}
+						eb, ok := loadedField(parse.Call.Args[0], g.eValue)
+						if !ok {
+							return "the compaction version is not parsed from the received entry's value"
+						}
+						keyOK := p.holdsUp(f, blk, eb, func(base ssa.Value, fx []Fact) bool {
+							isE := func(v ssa.Value) bool { b, ok := loadedField(v, g.eKey); return ok && strip(b) == strip(base) }
+							return anyFact(fx, func(ft Fact) bool { return cmpFact(ft, token.EQL, isE, isCompact) })
+						}, 0)
+						internal := p.holdsUp(f, blk, eb, func(base ssa.Value, fx []Fact) bool {
+							return anyFact(fx, func(ft Fact) bool {
+								b, ok := loadedField(ft.V, g.eInternal)
+								return ok && ft.T && strip(b) == strip(base)
+							})
+						}, 0)
+						if !keyOK || !internal {
+							return "not under `e.Internal && e.Key == compactKey` of the received entry"
+						}
+						return ""
 					}
-					marked := entryFacts(eb, facts)
-					if !marked {
-						// the entry is a parameter of an unexported helper: the facts may hold at every call site instead
-						if al, ok := strip(eb).(*ssa.Alloc); ok {
-							if sv, _ := singleStore(al); sv != nil {
-								if pv, ok := sv.(*ssa.Parameter); ok && fn.Object() != nil && !fn.Object().Exported() {
-									idx := -1
-									for k, pp := range fn.Params {
-										if pp == pv {
-											idx = k
-										}
-									}
-									sites := 0
-									all := true
-									for _, e := range p.callersOf(fn) {
-										cf := e.Caller.Func
-										if cf == nil || isTestFile(p.Fset, cf.Pos()) || e.Site == nil {
-											continue
-										}
-										args := e.Site.Common().Args
-										if idx < 0 || idx >= len(args) {
-											all = false
-											continue
-										}
-										sites++
-										arg := strip(args[idx])
-										var base ssa.Value
-										if u, ok := arg.(*ssa.UnOp); ok && u.Op == token.MUL {
-											base = u.X
-										}
-										if base == nil || !entryFacts(base, computeFacts(cf).At(e.Site.Block())) {
-											all = false
-										}
-									}
-									marked = sites > 0 && all
-								}
+					if pv, ok := v.(*ssa.Parameter); ok && depth < 3 && f.Object() != nil && !f.Object().Exported() {
+						idx := -1
+						for k, pp := range f.Params {
+							if pp == pv {
+								idx = k
 							}
 						}
+						sites := 0
+						for _, e := range p.callersOf(f) {
+							cf := e.Caller.Func
+							if cf == nil || isTestFile(p.Fset, cf.Pos()) || e.Site == nil || !inModule(cf) {
+								continue
+							}
+							args := e.Site.Common().Args
+							if idx < 0 || idx >= len(args) {
+								return "a call site does not bind the compaction version"
+							}
+							sites++
+							if why := parsedOK(cf, e.Site.Block(), args[idx], depth+1); why != "" {
+								return why
+							}
+						}
+						if sites > 0 {
+							return ""
+						}
 					}
-					parsed := anyFact(facts, func(f Fact) bool {
-						return cmpFact(f, token.EQL, func(v ssa.Value) bool {
-							ex, ok := strip(v).(*ssa.Extract)
-							return ok && ex.Index == 1 && ex.Tuple == ssa.Value(parse)
-						}, isNilConst)
-					})
-					switch {
-					case !marked:
-						bad = "not under `e.Internal && e.Key == compactKey` of the received entry"
-					case !parsed:
-						bad = "not under a successful parse of the compaction version"
-					}
+					return "the compaction version is not the parsed value of the received entry"
 				}
+				bad = parsedOK(fn, w.instr.Block(), cv, 0)
 			}
 			// no further condition on the examined entry
 			if bad == "" {
